@@ -25,12 +25,16 @@ class Budget(Exception):
 
 SUBJECTS = [("child", "exit", 0), ("child", "exit", 1), ("child", "exit", 255), ("child", "sig", 1), ("child", "sig", 9),
             ("child", "sig", 15), ("child", "sig", 64), ("child", "sig", 35), ("child", "sig", 63), ("child", "sig", 32),
+            # killed by a signal AND a core was dumped (bit 0x80 of the wait status): still "the negated signal"
+            ("child", "sigcore", 11), ("child", "sigcore", 6),
             ("other", None, None),
             # a Process object built on the id of a THREAD of a non-child process (psutil accepts thread ids)
             ("other-tid", None, None)]
 
 
 def wstatus(kind, v):
+    if kind == "sigcore":
+        return v | 0x80
     return (v << 8) if kind == "exit" else v
 
 
@@ -155,7 +159,7 @@ def judge_wait(arg, r):
             bad.append(("returned-early", "wait(%r) returned %r at %r, process exits at %r" % (timeout, out, r["t_end"], e)))
         if out[1] != val:
             bad.append(("wrong-status:%s" % (sub[1] or sub[0]), "wait() -> %r, expected %r for %r" % (out, val, sub)))
-        if sub[1] == "sig" and out[0] == "ok" and out[1] is not None and out[2] not in ("Negsignal", "int"):
+        if sub[1] in ("sig", "sigcore") and out[0] == "ok" and out[1] is not None and out[2] not in ("Negsignal", "int"):
             bad.append(("status-type", repr(out)))
         if timeout is not None and e > timeout + POLL_MAX + slack + EPS:
             bad.append(("returned-though-alive", "wait(%r) returned %r at %r but the process exits only at %r" % (timeout, out, r["t_end"], e)))
@@ -435,10 +439,17 @@ def live_popen(arg):
     p = psutil.Popen([sys.executable, "-S", "-c", code], stdout=subprocess.PIPE, stderr=subprocess.DEVNULL)
     try:
         seen = []
+        firsts = []
         for step in seq:
             if step == "wait":
                 o = outcome(p.wait, 30)
                 seen.append(("wait", o))
+                if o[0] == "ok":
+                    firsts.append((type(o[1]).__name__, repr(o[1])))
+                    if firsts[0] != firsts[-1]:
+                        bad.append(("popen:later-wait-returns-another-object-kind", "child ended by %s %d; sequence %r: first wait() -> %s %s, a later "
+                                    "one -> %s %s" % (how, n, seq, firsts[0][0], firsts[0][1], firsts[-1][0], firsts[-1][1])))
+                        break
                 if o[0] != "ok" or o[1] != want:
                     bad.append(("popen:wait-status", "child ended by %s %d; sequence %r: wait() -> %r after %r" % (how, n, seq, o, seen[:-1])))
                     break
